@@ -71,7 +71,7 @@ Print Assumptions C02_unknown_flags_never_accept.
 
 (* recv_call (used above and by C12) is not a separate model with an assumption about the count: it IS the machine on the
    streams whose count token equals the number of positional trees *)
-Theorem C02_counted_streams : forall ms pos kwsb,
+Theorem C02_counted_streams : forall ms pos kwsb, names_text kwsb = true ->
   recv_arguments ms (enc_args pos kwsb) = recv_call ms pos (code_kws kwsb).
 Proof. exact recv_arguments_refines. Qed.
 Print Assumptions C02_counted_streams.
@@ -137,11 +137,20 @@ Theorem C02_one_call_violation : forall ms pos kws, leaf_schema ms ->
 Proof. exact one_call_violation. Qed.
 Print Assumptions C02_one_call_violation.
 
-Theorem C02_one_call_violation_stream : forall ms pos kwsb, leaf_schema ms ->
+Theorem C02_one_call_violation_stream : forall ms pos kwsb, leaf_schema ms -> names_text kwsb = true ->
   recv_arguments ms (enc_args pos kwsb) = CViol \/
   exists a kw, recv_arguments ms (enc_args pos kwsb) = CInvoke a kw /\ checkAllArgs ms a kw = Ok tt.
 Proof. exact one_call_violation_stream. Qed.
 Print Assumptions C02_one_call_violation_stream.
+
+(* ... and a keyword NAME that is not text (bytes that are not UTF-8; names_text excludes them above) fails that one call
+   with a Violation, for every schema and whatever follows: the repaired defect oracle/non-utf8-keyword-name-drops-connection
+   (commit 0c0affc; au_nontext_name_violation is read from call.py: without the handler this proof breaks and the model
+   says "connection lost") *)
+Theorem C02_nontext_name_violation : forall ms na args kws c vb sz bs rest, na <= zlen args -> utf8_valid bs = false ->
+  au_run ms (aust na args kws None c) (WStr vb sz bs :: rest) = CViol.
+Proof. exact nontext_name_violation. Qed.
+Print Assumptions C02_nontext_name_violation.
 
 (* "a non-conforming message makes that one call fail with a Violation": FALSE for strictTaster constraints
    (known finding oracle/strict-taster-drops-connection): a wrong token type under str/bool/None is a BananaError *)
